@@ -77,9 +77,10 @@ def cases(tier):
             lo, hi = max(0, c - 2), min(2 ** w - 1, c + 2)
             cs.append(mk(w, 10, 0, lo, hi, timeout=900, tag="-win%d" % c))
     # base 10 and "any other base means 10"
-    hi = 9999 if q else 999999
     for w in (32, 64):
-        cs.append(mk(w, 10, 0, 0, hi, timeout=1800, tag="-lo"))
+        # thorough: 10^6 values for 32 bit (1146 s); the 64-bit formatter has no verdict for 10^6 within 1800 s, 10^5 it is
+        hi = 9999 if q else (999999 if w == 32 else 99999)
+        cs.append(mk(w, 10, 0, 0, hi, timeout=1800 if q else 3600, tag="-lo"))
         cs.append(mk(w, 10, 1, 0, 999 if q else 9999, timeout=1800, tag="-lo"))
         cs.append(mk(w, 7, 0, 0, 999 if q else 9999, timeout=1800, tag="-lo"))
         cs.append(mk(w, 0, 0, 0, 99 if q else 999, timeout=1800, tag="-lo"))
